@@ -62,6 +62,7 @@ class OpaqueClass:
         self.nota = opts.get("nota", [])  # ... and known not to be
         self.as_int = opts.get("as_int")
         self.nonneg = opts.get("nonneg", False)
+        self.maybe = opts.get("maybe", [])  # optional methods: hasattr(obj, name) is symbolic
 
 
 class SpecModule:
@@ -113,7 +114,8 @@ class Registry:
             base = self.contracts.get(base_q)
             if base is None:
                 raise ValueError(f"refines: no contract for {base_q}")
-            meth = base_q.rsplit(".", 1)[1]
+            meth = base_q.split("@")[0].rsplit(".", 1)[1]
+            bvariant = base_q.split("@")[1] if "@" in base_q else None
             for cq in classes:
                 import copy as _copy
 
@@ -122,9 +124,18 @@ class Registry:
                 c.params = dict(base.params)
                 if "self" in c.params:
                     c.params["self"] = "obj:" + cq
+                c.funcs = dict(base.funcs)
                 for k_, v_ in ropts.items():  # e.g. inline_calls=..., locals=... needed by the subclass body
+                    if k_ == "extra_requires":
+                        # a named specification function over the method's parameters: the subclass'
+                        # representation invariant, under which the refinement is claimed
+                        if v_ not in self.specs:
+                            raise ValueError(f"refines: unknown specification function {v_}")
+                        c.funcs["requires_rep"] = self.specs[v_][1]
+                        continue
                     setattr(c, k_, v_)
-                c.key = c.target + "@iface"
+                c.key = c.target + "@iface" + ("-" + bvariant if bvariant else "")
+                c.when = None
                 c.assumed = False
                 if c.key in self.contracts:
                     raise ValueError(f"duplicate contract for {c.key}")
@@ -243,6 +254,13 @@ class Registry:
         """Uninterpreted specification function over data values."""
 
         def fn(it, args, kwargs, name=name, argkinds=argkinds, retkind=retkind):
+            # a model object may define what an abstract ghost function means for it (e.g. in_store
+            # of the concrete object-store model is membership in the repository's object set)
+            if args and isinstance(args[0], VRef):
+                nat = it.heap()[args[0].addr].native
+                hook = getattr(nat, "ghost_" + name, None) if nat is not None else None
+                if hook is not None:
+                    return hook(it, args[0], list(args[1:]))
             terms = []
             for a, kd in zip(args, argkinds):
                 like = vals.fresh(kd, "g")
